@@ -614,7 +614,12 @@ func (tm *TaskMaster) stopTask(id string) (err error) {
 		case BatchTask:
 			delete(tm.batches, id)
 		}
+		// The task is no longer known, wait for it to finish without the lock.
+		// Its nodes may still need the task master to make progress: a loopback node
+		// writes points, and forking those takes the read lock.
+		tm.mu.Unlock()
 		err = et.stop()
+		tm.mu.Lock()
 		if err != nil {
 			tm.diag.StoppedTaskWithError(id, err)
 		} else {
